@@ -58,6 +58,7 @@ extern "C" void harness(void) {
                     if (!reach[s][b]) { reach[s][b] = true; od[s][b] = cand; }
                     else od[s][b] = dmin(od[s][b], cand);
                 }
+#ifndef LAYOUT_ONLY      // (negative lengths are outside Dijkstra's domain; the layout corrects them first)
     // ---- the three real implementations
     double *Dj[NN], *Df[NN], dd[NN][NN];
     for (int i = 0; i < NN; i++) { Dj[i] = new double[NN]; Df[i] = new double[NN]; }
@@ -92,6 +93,7 @@ extern "C" void harness(void) {
 #endif
         }
     }
+#endif
 #ifdef LAYOUT
     {
         // the ideal-distance matrix of a force-directed layout: idealLength * path length, non-positive lengths -> 1
@@ -125,6 +127,8 @@ extern "C" void harness(void) {
         for (int i = 0; i < NN; i++) delete rs[i];
     }
 #endif
+#ifndef LAYOUT_ONLY
     for (int i = 0; i < NN; i++) { delete[] Dj[i]; delete[] Df[i]; }
+#endif
     WITNESS_POINT();
 }
